@@ -246,6 +246,47 @@ func halfInitialised(r *core.Run, opIdx int, feat string) []core.Finding {
 
 func init() { core.C11CreateVsClose = runC11CreateVsClose }
 
+// runC12CreateVsClose: the same overlaps (provider.Close included) judged for C12: every instance
+// that exists by the end was closed exactly once, whoever owned it.
+func runC12CreateVsClose(c *eng.Ctx, next func() (int, bool)) {
+	for _, sc := range overlapScenarios() {
+		if sc.op.Kind != core.OpCreate || sc.closer == "cancel" {
+			continue
+		}
+		dry, anc, leaf := c13Setup(sc)
+		if !dry.Built {
+			continue
+		}
+		op := sc.op
+		op.Scope = leaf
+		if sc.onParent {
+			op.Scope = 0
+		}
+		before := len(core.Digest(dry).Runs)
+		dry.Do(op)
+		points := len(core.Digest(dry).Runs) - before
+		dry.Finish()
+		for j := 1; j <= points; j++ {
+			idx, mine := next()
+			if !mine {
+				continue
+			}
+			c.R.Begin(idx)
+			overlapAtFor(c, "C12", idx, sc, anc, leaf, j, false, false)
+		}
+		if rt.YieldAvailable {
+			for j, n := 1, countYields(sc, false); j <= n; j++ {
+				idx, mine := next()
+				if !mine {
+					continue
+				}
+				c.R.Begin(idx)
+				overlapAtFor(c, "C12", idx, sc, anc, leaf, j, false, true)
+			}
+		}
+	}
+}
+
 // runC11CreateVsClose: CreateScope on a scope that owns disposable instances, parked at every
 // user-code callback and every internal yield point it passes, while that scope / its parent /
 // the provider is closed; judged by the C11 order rules over the complete history.
@@ -416,6 +457,28 @@ func overlapAtFor(c *eng.Ctx, prop string, idx int, sc overlapScenario, _, _ int
 	opRes, clRes := firstRes, secondRes
 	if mirror {
 		opRes, clRes = secondRes, firstRes
+	}
+	if prop == "C12" {
+		// what a scope creation that loses the race with a Close had already built (its
+		// initializers' instances) is closed all the same, exactly once, by the end
+		var fs []core.Finding
+		if !r.Poisoned {
+			if op.Kind == core.OpCreate && opRes.Class == "ok" && opRes.NewScope > 0 {
+				r.Do(core.Op{Kind: core.OpClose, Scope: opRes.NewScope})
+			}
+			r.Finish()
+			o := core.Digest(r)
+			for _, x := range core.OwnedDisposables(r, o) {
+				if n := len(o.Closes[x.ID]); n != 1 {
+					fs = append(fs, core.Finding{Clause: "close-count-under-overlap", Sig: fmt.Sprintf("%s:closed-%d-times:%s", feat, min(n, 2), core.LifeName(r.Model.Regs[x.Reg].Life)), Detail: fmt.Sprintf("%s, pause point %d: %s of %s (constructed in op%d) was closed %d times by the end of the history: what a scope creation overlapping a Close had built belongs to nobody's Close", feat, j, o.InstName(x.ID), r.Model.Describe(x.Reg), x.Run.Op, n)})
+				}
+			}
+		}
+		core.Report(c, "C12", idx, r, fs)
+		c.R.Count("create_vs_close_overlaps", 1)
+		c.R.Count("op_result_"+opRes.Class, 1)
+		c.R.End(idx, eng.Hash("c12-create-vs-close", feat, j), reached)
+		return
 	}
 	if prop == "C11" {
 		if !r.Poisoned && op.Kind == core.OpCreate && opRes.Class == "ok" && opRes.NewScope > 0 {
